@@ -50,6 +50,7 @@ PBlock(stmts, ind) ==
   IF stmts = <<>> THEN ""
   ELSE Join([i \in 1..Len(stmts) |-> Indent(ind) \o P(stmts[i], ind) \o "\n"], "", 1)
 PParams(ps) == Join([i \in 1..Len(ps) |-> ps[i] \o ": Int"], ", ", 1)
+LamRt(e) == IF "rt" \in DOMAIN e /\ e.rt = "Bool" THEN "Bool" ELSE "Int"
 P(e, ind) ==
   CASE e.k = "int"   -> ToString(e.v)
     [] e.k = "str"   -> Lit(e.v)
@@ -63,7 +64,12 @@ P(e, ind) ==
     [] e.k = "ctor"  -> e.n \o (IF e.args = <<>> THEN "" ELSE "(" \o Join(PSeq(e.args, ind), ", ", 1) \o ")")
     [] e.k = "call"  -> P(e.f, ind) \o "(" \o Join(PSeq(e.args, ind), ", ", 1) \o ")"
     [] e.k = "mcall" -> P(e.recv, ind) \o "." \o e.m \o "(" \o Join(PSeq(e.args, ind), ", ", 1) \o ")"
-    [] e.k = "lam"   -> "fun(" \o PParams(e.ps) \o "): Int {\n" \o PBlock(e.b, ind + 1) \o Indent(ind) \o "}"
+    [] e.k = "lam"   -> "fun(" \o PParams(e.ps) \o "): " \o LamRt(e) \o " {\n" \o PBlock(e.b, ind + 1) \o Indent(ind) \o "}"
+    [] e.k = "dot"   -> P(e.e, ind) \o "." \o e.f
+    [] e.k = "slit"  -> e.n \o "{ " \o Join([i \in 1..Len(e.fs) |-> e.fs[i].n \o ": " \o P(e.fs[i].e, ind)], ", ", 1) \o " }"
+    [] e.k = "letd"  -> "let (" \o Join(e.ns, ", ", 1) \o ") = " \o P(e.e, ind)
+    [] e.k = "ford"  -> "for (" \o Join(e.ns, ", ", 1) \o ") in " \o P(e.it, ind) \o " {\n" \o PBlock(e.b, ind + 1) \o Indent(ind) \o "}"
+    [] e.k = "try"   -> "try {\n" \o PBlock(e.b, ind + 1) \o Indent(ind) \o "} catch (e9) {\n" \o PBlock(e.cb, ind + 1) \o Indent(ind) \o "}"
     [] e.k = "let"   -> "let " \o e.n \o " = " \o P(e.e, ind)
     [] e.k = "set"   -> e.n \o " = " \o P(e.e, ind)
     [] e.k = "upd"   -> e.n \o " " \o e.op \o "= " \o P(e.e, ind)
@@ -91,6 +97,7 @@ P(e, ind) ==
 PFun(f) == "fun " \o f.n \o "(" \o PParams(f.ps) \o "): " \o f.rt \o " {\n" \o PBlock(f.b, 1) \o "}\n"
 PrintProg(prog) ==
   (IF prog.uses_enum THEN "enum E1 { A1, B1(Int), C1 }\n" ELSE "")
+  \o (IF "uses_struct" \in DOMAIN prog /\ prog.uses_struct THEN "struct P1 { x: Int, y: String }\n" ELSE "")
   \o Join([i \in 1..Len(prog.funs) |-> PFun(prog.funs[i])], "", 1)
   \o PBlock(prog.main, 0)
 
@@ -113,7 +120,12 @@ S(e) ==
     [] e.k = "ctor"  -> IF e.args = <<>> THEN "(Variable " \o e.n \o ")" ELSE CallOf(e.n, SList(e.args))
     [] e.k = "call"  -> "(Call " \o S(e.f) \o " " \o SList(e.args) \o ")"
     [] e.k = "mcall" -> "(MethodCall " \o S(e.recv) \o " " \o e.m \o " " \o SList(e.args) \o ")"
-    [] e.k = "lam"   -> "(FunLiteral (FunInfo None [] " \o SParams(e.ps) \o " " \o Hint("Int") \o " " \o SList(e.b) \o "))"
+    [] e.k = "lam"   -> "(FunLiteral (FunInfo None [] " \o SParams(e.ps) \o " " \o Hint(LamRt(e)) \o " " \o SList(e.b) \o "))"
+    [] e.k = "dot"   -> "(DotAccess " \o S(e.e) \o " " \o e.f \o ")"
+    [] e.k = "slit"  -> "(StructLiteral " \o e.n \o " [" \o Join([i \in 1..Len(e.fs) |-> "(Tuple " \o e.fs[i].n \o " " \o S(e.fs[i].e) \o ")"], " ", 1) \o "])"
+    [] e.k = "letd"  -> "(Let (Destructure [" \o Join(e.ns, " ", 1) \o "]) None " \o S(e.e) \o ")"
+    [] e.k = "ford"  -> "(ForIn (Destructure [" \o Join(e.ns, " ", 1) \o "]) " \o S(e.it) \o " " \o SList(e.b) \o ")"
+    [] e.k = "try"   -> "(Try " \o SList(e.b) \o " e9 " \o SList(e.cb) \o ")"
     [] e.k = "let"   -> "(Let (Symbol " \o e.n \o ") None " \o S(e.e) \o ")"
     [] e.k = "set"   -> "(Assign " \o e.n \o " " \o S(e.e) \o ")"
     [] e.k = "upd"   -> "(AssignUpdate " \o e.n \o " " \o (IF e.op = "+" THEN "Add" ELSE "Subtract") \o " " \o S(e.e) \o ")"
@@ -139,8 +151,11 @@ S(e) ==
 SFun(f) == "(Fun " \o f.n \o " (FunInfo " \o f.n \o " [] " \o SParams(f.ps) \o " " \o Hint(f.rt) \o " " \o SList(f.b) \o ") CurrentFile)"
 EnumSexp == "(Enum (EnumInfo CurrentFile E1 [] [(VariantInfo A1 None) (VariantInfo B1 (TypeHint Int [])) (VariantInfo C1 None)]))"
 \* one S-expression per top-level item, in order
+StructSexp == "(Struct (StructInfo CurrentFile P1 [] [(FieldInfo x (TypeHint Int [])) (FieldInfo y (TypeHint String []))]))"
+UsesStruct(prog) == "uses_struct" \in DOMAIN prog /\ prog.uses_struct
 SexpItems(prog) ==
   (IF prog.uses_enum THEN <<EnumSexp>> ELSE <<>>)
+  \o (IF UsesStruct(prog) THEN <<StructSexp>> ELSE <<>>)
   \o [i \in 1..Len(prog.funs) |-> SFun(prog.funs[i])]
   \o [i \in 1..Len(prog.main) |-> S(prog.main[i])]
 
@@ -177,6 +192,8 @@ ExprTrees(d) ==
          \cup {[k |-> "list", xs |-> <<e, IntE(3)>>] : e \in T}
          \cup {[k |-> "tuple", xs |-> <<e>>] : e \in T}
          \cup {[k |-> "ctor", n |-> "Some", args |-> <<e>>] : e \in T}
+         \cup {[k |-> "dot", e |-> e, f |-> "x"] : e \in T \ {x \in T : x.k \in {"int", "bin"}}}   \* `1.x` lexes as a float start, `a + b.x` groups differently
+         \cup {[k |-> "slit", n |-> "P1", fs |-> <<[n |-> "x", e |-> e], [n |-> "y", e |-> StrE("s")]>>] : e \in T}
 
 SlotExprs == {IntE(1), VarE("a"), BinE("+", VarE("a"), IntE(1)), CallE(VarE("f"), <<VarE("b")>>), ParenE(BinE("<", VarE("a"), VarE("b")))}
 RECURSIVE StmtTrees(_)
@@ -190,9 +207,13 @@ StmtTrees(d) ==
        \cup {[k |-> "assert", e |-> e] : e \in E}
        \cup {[k |-> "show", e |-> e] : e \in E}
        \cup {[k |-> "break"], [k |-> "continue"], [k |-> "print", v |-> "p q"], [k |-> "throw", v |-> "boom"]}
+       \cup {[k |-> "letd", ns |-> <<"p", "q">>, e |-> e] : e \in E}
+       \cup {[k |-> "ret", e |-> [k |-> "dot", e |-> VarE("a"), f |-> "x"]], [k |-> "dot", e |-> VarE("a"), f |-> "x"]}
        \cup E
   ELSE LET T == StmtTrees(d - 1)
            Bodies == {<<>>} \cup {<<s>> : s \in T} \cup {<<s, [k |-> "print", v |-> "z"]>> : s \in T}
+                     \* a statement followed by one that starts with a parenthesis: nothing may run on across the line break
+                     \cup {<<s, ParenE(BinE("+", VarE("a"), IntE(1)))>> : s \in T}
        IN T
           \cup {[k |-> "if", c |-> VarE("a"), t |-> b, f |-> <<>>, else |-> FALSE] : b \in Bodies}
           \cup {[k |-> "if", c |-> ParenE(BinE("<", VarE("a"), IntE(1))), t |-> b, f |-> <<[k |-> "print", v |-> "e"]>>, else |-> TRUE] : b \in Bodies}
@@ -204,4 +225,6 @@ StmtTrees(d) ==
                             [v |-> "None", bind |-> "", wild |-> FALSE, b |-> <<>>],
                             [v |-> "", bind |-> "", wild |-> TRUE, b |-> b]>>] : b \in Bodies}
           \cup {[k |-> "let", n |-> "c", e |-> [k |-> "lam", ps |-> <<"z">>, b |-> b]] : b \in Bodies}
+          \cup {[k |-> "ford", ns |-> <<"i", "j">>, it |-> VarE("a"), b |-> b] : b \in Bodies}
+          \cup {[k |-> "try", b |-> b, cb |-> <<[k |-> "print", v |-> "c"]>>] : b \in Bodies}
 =============================================================================
